@@ -58,13 +58,15 @@ Lemma ex_rejected :
     (RErr ETransferEncoding, [([80; 79; 83; 84], [47; 97], [97; 98; 99; 100; 101; 102; 103; 104; 105; 106; 107; 108; 109; 110; 111; 112; 113; 114; 115; 116; 117; 118; 119; 120; 121; 122], [26], false, Some ETransferEncoding)]).
 Proof. vm_compute. repeat split. Qed.
 
-(* ---- refutation witnesses ---- *)
-(* (a) max_field = 10, header line "a:34567890" of exactly 10 bytes, cut between its CR and LF *)
+(* ---- boundary cases and refutation witnesses ---- *)
+(* (a) max_field = 10, header line "a:34567890" of exactly 10 bytes, cut between its CR and LF:
+   accepted either way (the buffered CR does not count) *)
 Definition lim_a : limits := mkLimits 20 10 128 32.
 Definition wa_1 : bytes := [71; 69; 84; 32; 47; 32; 72; 84; 84; 80; 47; 49; 46; 48; 13; 10; 97; 58; 51; 52; 53; 54; 55; 56; 57; 48; 13].
 Definition wa_2 : bytes := [10; 13; 10].
-Lemma refute_cr_boundary :
-  digest (run_segs lim_a [] init [wa_1; wa_2] [] []) = (RErr ELineTooLong, []) /\
+Lemma ex_cr_boundary_fixed :
+  digest (run_segs lim_a [] init [wa_1; wa_2] [] []) =
+    (ROk [], [([71; 69; 84], [47], @nil N, @nil N, true, @None herr)]) /\
   digest (run_segs lim_a [] init [concat [wa_1; wa_2]] [] []) =
     (ROk [], [([71; 69; 84], [47], @nil N, @nil N, true, @None herr)]).
 Proof. vm_compute. split; reflexivity. Qed.
@@ -83,18 +85,28 @@ Proof. vm_compute. repeat split. Qed.
 Definition lim_c : limits := mkLimits 20 8190 128 32.
 Definition wc_1 : bytes := [80; 79; 83; 84; 32; 47; 32; 72; 84; 84; 80; 47; 49; 46; 48; 13; 10; 84; 114; 97; 110; 115; 102; 101; 114; 45; 69; 110; 99; 111; 100; 105; 110; 103; 58; 32; 99; 104; 117; 110; 107; 101; 100; 13; 10; 13; 10; 49; 59; 101; 101; 101; 101; 101; 101; 101; 101; 101; 101; 101; 101; 101; 101; 101; 101; 101; 101; 13].
 Definition wc_2 : bytes := [10; 120; 13; 10; 48; 13; 10; 13; 10].
-Lemma refute_chunk_tail_recheck :
+Lemma ex_chunk_cr_boundary_fixed :
   first_then lim_c wc_1 wc_2 =
-    (ROk [], false, Some (PChunked CSize, [49; 59; 101; 101; 101; 101; 101; 101; 101; 101; 101; 101; 101; 101; 101; 101; 101; 101; 101; 101; 13]),
-     (RErr ELineTooLong, [([80; 79; 83; 84], [47], @nil N, @nil N, false, Some ELineTooLong)])) /\
+    (ROk [], true, Some (PChunked CSize, [49; 59; 101; 101; 101; 101; 101; 101; 101; 101; 101; 101; 101; 101; 101; 101; 101; 101; 101; 101; 13]),
+     (ROk [], [([80; 79; 83; 84], [47], [120], [1], true, @None herr)])) /\
   digest (feed lim_c [] init (wc_1 ++ wc_2) []) =
+    (ROk [], [([80; 79; 83; 84], [47], [120], [1], true, @None herr)]) /\
+  digest (run_segs lim_c [] init [wc_1; wc_2] [] []) =
     (ROk [], [([80; 79; 83; 84], [47], [120], [1], true, @None herr)]).
-Proof. vm_compute. split; reflexivity. Qed.
+Proof. vm_compute. repeat split. Qed.
 
-Lemma refute_chunk_size_cr_boundary :
-  fst (digest (run_segs lim_c [] init [wc_1; wc_2] [] [])) = RErr ELineTooLong /\
-  digest (run_segs lim_c [] init [concat [wc_1; wc_2]] [] []) =
-    (ROk [], [([80; 79; 83; 84], [47], [120], [1], true, @None herr)]).
+(* (d) max_line = 20: the first read ends inside a chunk-size line that is already 25 bytes long (no
+   CR, no LF yet); the next read, which still does not end the line, raises LineTooLong on the
+   buffered part, while one read of the same bytes is still waiting for the end of the line: the
+   rejection is only noticed earlier (every continuation of the one-read run is rejected too) *)
+Definition wd_1 : bytes := [80; 79; 83; 84; 32; 47; 32; 72; 84; 84; 80; 47; 49; 46; 48; 13; 10; 84; 114; 97; 110; 115; 102; 101; 114; 45; 69; 110; 99; 111; 100; 105; 110; 103; 58; 32; 99; 104; 117; 110; 107; 101; 100; 13; 10; 13; 10; 49; 59; 101; 101; 101; 101; 101; 101; 101; 101; 101; 101; 101; 101; 101; 101; 101; 101; 101; 101; 101; 101; 101; 101; 101].
+Definition wd_2 : bytes := [101; 101].
+Lemma ex_tail_recheck_early :
+  first_then lim_c wd_1 wd_2 =
+    (ROk [], false, Some (PChunked CSize, [49; 59; 101; 101; 101; 101; 101; 101; 101; 101; 101; 101; 101; 101; 101; 101; 101; 101; 101; 101; 101; 101; 101; 101; 101]),
+     (RErr ELineTooLong, [([80; 79; 83; 84], [47], @nil N, @nil N, false, Some ELineTooLong)])) /\
+  (let '(s, a, r) := feed lim_c [] init (wd_1 ++ wd_2) [] in (r, tail_ok lim_c s, digest (s, a, r))) =
+    (ROk [], false, (ROk [], [([80; 79; 83; 84], [47], @nil N, @nil N, false, @None herr)])).
 Proof. vm_compute. split; reflexivity. Qed.
 
 (* the one-read run of witness (b) returns normally but leaves a header block that can never be
@@ -112,10 +124,8 @@ Lemma ex_rejected_hyps :
 Proof. vm_compute. split; reflexivity. Qed.
 
 Lemma ex_hyps_exclude :
-  fail_complete lim_a [] init [wa_1; wa_2] [] = false /\
   fail_complete lim0 [] init [wb_1; wb_2] [] = false /\
-  boundaries_ok lim_c [] init [wc_1; wc_2] [] = false /\
-  boundaries_ok lim_a [] init [wa_1; wa_2] [] = true /\
   boundaries_ok lim0 [] init [wb_1; wb_2] [] = true /\
-  fail_complete lim_c [] init [wc_1; wc_2] [] = true.
+  boundaries_ok lim_c [] init [wd_1; wd_2] [] = false /\
+  fail_complete lim_c [] init [wd_1; wd_2] [] = true.
 Proof. vm_compute. repeat split. Qed.
